@@ -6,6 +6,16 @@ props = [json.loads(l) for l in open(os.path.join(V, "properties.jsonl"))]
 
 # property -> (level text, level note, technique, design_ref)
 CLAIMED = {
+ "C13": ("TLC (MC_C13) models where the generator puts the trait and with which visibility (fn: next to the function with the requested "
+         "visibility; mod: inside the module as pub(super) or as requested plus `vis use m::T;`; trait: the delegation-target trait copies the "
+         "trait's visibility) and checks that naming it from each probe location is possible iff the REQUESTED visibility allows it "
+         "(Req!Accessible, transcribed from the Rust reference), independently of the item's own visibility. Every (input, location) is replayed: "
+         "the item is expanded by the real macro inside a module tree (and a second crate for the other-crate location) and a `use` of the trait "
+         "from the location is compiled; TLC (Trace_C13) compares rustc's verdicts (negative probes must fail with privacy errors only) and the "
+         "emitted visibility tokens with the model.",
+         "the lattice is finite and fully replayed (135 probes); rustc's privacy checker is the oracle for each probe; enclosing modules are pub",
+         "TLA+ module-tree accessibility model checked by TLC + exhaustive replay of positive/negative `use` probes with TLC validating rustc's verdicts",
+         "7/C13"),
  "C09": ("TLC (MC_C09) applies the stages analyze_trait -> gen_trait_def to every subset of 13 trait components under 8 trait-mode option sets "
          "(29 184 inputs) and checks that nothing the user wrote is lost except on three named deviation classes. The traits are expanded by the "
          "real macro; the projector parses the user's trait (hook input) and the emitted trait (hook output) with syn, independently of the macro, "
